@@ -1,11 +1,71 @@
 /-
   Avt.Spec.C09 — oracle of property C09 (decidable predicates evaluated on implementation states;
   the same definitions the theorems in Avt/Props/C09.lean are stated with).
+
+  C09: for input made of printable characters and CR LF line breaks, `text()` returns exactly the
+  input lines (trailing white space trimmed as `str::trim_end` does; trailing empty lines aside),
+  whatever the geometry; unwrapping `lines()` with `TextUnwrapper` gives the same lines up to
+  trailing white space; the result is the same for every width.
+
+  The harness feeds the same input (`expected` joined by CR LF) to two instances with different
+  geometries and unlimited scrollback, queries `text()` and the TextUnwrapper output of both
+  (`TEXT k`, `UNWRAP k`), and then emits `X C09 k0 k1 n hexline…` with the expected logical lines.
 -/
 import Avt.Spec.Base
 
 namespace Avt.Spec.C09
 open Avt Avt.Spec
+
+/-- a character that the parser prints from the ground state: not C0, not C1, a scalar value
+    (DEL 0x7F is printed by this parser and counts as printable, as in C04) -/
+def isPrintable (c : Nat) : Bool := 0x20 ≤ c && !(0x80 ≤ c && c ≤ 0x9F) && isScalar c
+
+/-- the precondition of C09 on the expected lines -/
+def allPrintable (ls : List (List Nat)) : Bool := ls.all fun l => l.all isPrintable
+
+/-- the input that the expected lines stand for: the lines joined by CR LF -/
+def inputOf : List (List Nat) → List Nat
+  | [] => []
+  | [l] => l
+  | l :: ls => l ++ [0x0d, 0x0a] ++ inputOf ls
+
+/-- "trailing spaces trimmed", read as Rust's `str::trim_end`: trailing Unicode `White_Space` -/
+def trimEndWs (s : List Nat) : List Nat := trimEnd s
+
+/-- "trailing empty lines aside" -/
+def dropTrailingEmpty (ls : List (List Nat)) : List (List Nat) :=
+  (ls.reverse.dropWhile List.isEmpty).reverse
+
+/-- what `text()` must be, up to trailing empty lines -/
+def expectedText (expected : List (List Nat)) : List (List Nat) :=
+  dropTrailingEmpty (expected.map trimEndWs)
+
+/-- clause 1: `text()` is the input lines, trailing white space trimmed, trailing empty lines aside -/
+def textOK (expected text : List (List Nat)) : Bool :=
+  dropTrailingEmpty text == expectedText expected
+
+/-- pointwise "is a prefix of" on the common indices -/
+def prefixwise : List (List Nat) → List (List Nat) → Bool
+  | a :: as, b :: bs => a.isPrefixOf b && prefixwise as bs
+  | _, _ => true
+
+/-- clause 2: the TextUnwrapper output gives the same lines *up to trailing white space*.
+    `Buffer::text` trims the end of the whole joined logical line, `TextUnwrapper::push` trims only the
+    final row: for a logical line whose final row is all white space while earlier rows end in white
+    space (e.g. "ab" + 8 spaces at width 5) text() gives "ab" and the unwrapper "ab   ".  Hence the
+    comparison is made after `trimEndWs` (and trailing empty lines aside); in addition every unwrapped
+    line must be a prefix of the corresponding input line (white space is only ever removed). -/
+def unwrapOK (expected unwrap : List (List Nat)) : Bool :=
+  dropTrailingEmpty (unwrap.map trimEndWs) == expectedText expected
+    && prefixwise unwrap expected
+
+/-- clause 3: two geometries give the same text (trailing empty lines aside: their number depends on
+    the height) -/
+def sameText (t0 t1 : List (List Nat)) : Bool := dropTrailingEmpty t0 == dropTrailingEmpty t1
+
+/-- everything C09 says about one instance -/
+def instOK (expected : List (List Nat)) (text unwrap : List (List Nat)) : Bool :=
+  textOK expected text && unwrapOK expected unwrap
 
 def checkStep (_ev : StepEv) : List Verdict := []
 
@@ -13,7 +73,53 @@ def checkNew (_cols _rows : Nat) (_lim : Option Nat) (_st : Vt) : List Verdict :
 
 def checkParserStep (_prev : Parser) (_c : Nat) (_next : Parser) (_fn : String) : List Verdict := []
 
-def checkDirective (_name : String) (_args : List String) (_inst : String → Option Inst)
-    (_tcOut : Nat → List (List Nat)) : List Verdict × List (Nat × Inst) := ([], [])
+/-- hex token of the trace (`-` = empty, else `.`-separated hexadecimal code points) -/
+def hexVal (s : String) : Option Nat :=
+  s.foldl (fun acc ch =>
+    match acc with
+    | none => none
+    | some n =>
+      let d := ch.toNat
+      if 0x30 ≤ d ∧ d ≤ 0x39 then some (n * 16 + (d - 0x30))
+      else if 0x61 ≤ d ∧ d ≤ 0x66 then some (n * 16 + (d - 0x61 + 10))
+      else if 0x41 ≤ d ∧ d ≤ 0x46 then some (n * 16 + (d - 0x41 + 10))
+      else none) (if s.isEmpty then none else some 0)
+
+def hexLine (s : String) : Option (List Nat) :=
+  if s == "-" then some [] else (s.splitOn ".").mapM hexVal
+
+/-- the instance qualifies: primary screen, unlimited scrollback (what the generator builds) -/
+def instApplies (i : Inst) : Bool :=
+  i.st.terminal.activeBufferType == .primary && i.st.terminal.scrollbackLimit == none
+    && !i.sawResize
+
+def checkOne (tag : String) (expected : List (List Nat)) (nt : Bool) (i : Inst) : List Verdict :=
+  if i.dead then [check s!"C09.panicked[{tag}]" nt false] else
+  match i.lastText, i.lastUnwrap with
+  | some t, some u =>
+    [check s!"C09.text[{tag}]" nt (textOK expected t),
+     check s!"C09.unwrap[{tag}]" nt (unwrapOK expected u)]
+  | _, _ => [check s!"C09.no-text-returned[{tag}]" nt false]
+
+def checkDirective (name : String) (args : List String) (inst : String → Option Inst)
+    (_tcOut : Nat → List (List Nat)) : List Verdict × List (Nat × Inst) :=
+  if name != "C09" then ([], []) else
+  match args with
+  | k0 :: k1 :: n :: hexlines =>
+    match inst k0, inst k1, n.toNat?, hexlines.mapM hexLine with
+    | some i0, some i1, some n, some expected =>
+      if expected.length != n then ([check "C09.bad-directive" false false], []) else
+      -- precondition of the property: printable characters only, fresh unlimited primary screens
+      if !(allPrintable expected && instApplies i0 && instApplies i1) then
+        ([check "C09.precondition" false true], [])
+      else
+        let nt := expected.any (fun l => !l.isEmpty)
+        let both : List Verdict :=
+          match i0.lastText, i1.lastText with
+          | some t0, some t1 => [check "C09.width-independent" nt (sameText t0 t1)]
+          | _, _ => []
+        (checkOne "0" expected nt i0 ++ checkOne "1" expected nt i1 ++ both, [])
+    | _, _, _, _ => ([check "C09.bad-directive" false false], [])
+  | _ => ([check "C09.bad-directive" false false], [])
 
 end Avt.Spec.C09
